@@ -40,3 +40,18 @@ def log(kind, detail=None):
 
 def fired(key):
     CURRENT.count(key)
+
+
+class suspended:
+    """Machinery-internal work (computing a reference answer) leaves no trace in the run's event log."""
+
+    def __enter__(self):
+        global CURRENT
+        self.saved = CURRENT
+        CURRENT = EventLog()
+        return self
+
+    def __exit__(self, *exc):
+        global CURRENT
+        CURRENT = self.saved
+        return False
